@@ -1,7 +1,7 @@
 """C12 — the server never waits for input while it owes a flushed reply."""
 import re
 
-from engines import effects, typestate
+from engines import effects, typestate, readloop
 from engines.paths import enumerate_paths
 from engines.prog import cname, op_place, term_str, term_contains
 
@@ -140,6 +140,13 @@ def run(ctx):
                    fn=fr.path, construct="path-to-read", where=fr.where(p.blocks[-1]),
                    sample={"rule": "parse-before-read", "config": cfg, "path": p.blocks, "why": why})
         ctx.floor("C12.parse-before-read", "entry-to-read paths", npaths, 2)
+        # the same on the way round the loop: after a read that delivered bytes, the next wait must be preceded by a parse attempt
+        n_rr = 0
+        if len(read_bbs) == 1:
+            for kind, p, okp, gates in readloop.unparsed_reads(fr, read_bbs[0], parser_sites, [("reread", read_bbs[0])]):
+                n_rr += 1
+                ctx.ob("C12.parse-before-read", okp, "after a read the server waits for input again without offering the buffered bytes to the packet parser (decisions: %s)" % gates[:3],
+                       fn=fr.path, construct="reread", where=fr.where(p.blocks[-1]))
 
         # ---- single-wait-site ----------------------------------------------------------------
         callers = {b.path for b, _, _ in prog.callers_of("^" + re.escape(fr.path) + "$") if "::tests::" not in b.path}
